@@ -44,7 +44,9 @@ fn refused<T>(ctx: &mut CaseCtx, scheme: &str, entry: &str, what: &str, o: &Out<
 pub trait Oversize: Scheme {
     fn oversize(info: &KeyInfo, mag: u8, seed: u64) -> Option<(Self::P, String)>;
     /// a point with the wrong number of coordinates (shorter, longer), for multivariate schemes
-    fn bad_points(_info: &KeyInfo, _z: &Self::Pt) -> Vec<(Self::Pt, &'static str)> {
+    /// (point, what, reading): `reading` = the full-length point the scheme's positional reading of the
+    /// malformed point amounts to, where the scheme defines one (None = no defined reading)
+    fn bad_points(_info: &KeyInfo, _z: &Self::Pt) -> Vec<(Self::Pt, &'static str, Option<Self::Pt>)> {
         vec![]
     }
     const HIDING_ZERO_REFUSED: bool = false;
@@ -128,21 +130,28 @@ impl Oversize for Pst13 {
         let terms = vec![(Fr::rand(&mut g) + Fr::one(), term_of(&e)), (Fr::rand(&mut g), SparseTerm::new(vec![]))];
         Some((MVPoly::from_coefficients_vec(n, terms), format!("total degree {d} with supported degree {}", info.supported)))
     }
-    fn bad_points(info: &KeyInfo, z: &Vec<Fr>) -> Vec<(Vec<Fr>, &'static str)> {
+    fn bad_points(info: &KeyInfo, z: &Vec<Fr>) -> Vec<(Vec<Fr>, &'static str, Option<Vec<Fr>>)> {
         let mut short = z.clone();
         short.pop();
         let _ = info;
-        vec![(short, "point_too_short")]
+        vec![(short, "point_too_short", None)]
     }
     const HIDING_ZERO_REFUSED: bool = true;
     const HIDING_BEYOND_KEY_REFUSED: bool = true;
 }
-fn mle_points(z: &Vec<Fr>) -> Vec<(Vec<Fr>, &'static str)> {
+/// `positional`: the linear-code verifiers turn the point into tensor vectors a, b and take inner products
+/// that stop at the shorter operand, so a point that lacks its last coordinate is read as if that
+/// coordinate were 0 (b covers the first half of the rows). The commitment does not record the number of
+/// variables (a smaller polynomial may sit in a larger matrix), so the verifier cannot tell; what it
+/// accepts under that reading must be the polynomial's value at the zero-padded point.
+fn mle_points(z: &Vec<Fr>, positional: bool) -> Vec<(Vec<Fr>, &'static str, Option<Vec<Fr>>)> {
     let mut short = z.clone();
     short.pop();
     let mut long = z.clone();
     long.push(Fr::from(7u64));
-    vec![(short, "point_too_short"), (long, "point_too_long")]
+    let mut padded = short.clone();
+    padded.push(Fr::zero());
+    vec![(short, "point_too_short", if positional && !z.is_empty() { Some(padded) } else { None }), (long, "point_too_long", None)]
 }
 fn mle_over(nv: usize, seed: u64) -> MLE {
     let mut g = rng(seed);
@@ -164,14 +173,14 @@ impl Oversize for Hyrax {
         };
         Some((mle_over(nv, seed), format!("{nv} variables with a key for {}", info.num_vars)))
     }
-    fn bad_points(_info: &KeyInfo, z: &Vec<Fr>) -> Vec<(Vec<Fr>, &'static str)> {
+    fn bad_points(_info: &KeyInfo, z: &Vec<Fr>) -> Vec<(Vec<Fr>, &'static str, Option<Vec<Fr>>)> {
         if z.is_empty() {
             let mut long = z.clone();
             long.push(Fr::from(7u64));
             long.push(Fr::from(8u64));
-            return vec![(long, "point_too_long")];
+            return vec![(long, "point_too_long", None)];
         }
-        mle_points(z)
+        mle_points(z, false)
     }
     const NEEDS_RNG_ALWAYS: bool = true;
 }
@@ -179,8 +188,8 @@ impl Oversize for MLigero {
     fn oversize(_info: &KeyInfo, _mag: u8, _seed: u64) -> Option<(MLE, String)> {
         None // Ligero parameters do not bound the polynomial size
     }
-    fn bad_points(_info: &KeyInfo, z: &Vec<Fr>) -> Vec<(Vec<Fr>, &'static str)> {
-        mle_points(z)
+    fn bad_points(_info: &KeyInfo, z: &Vec<Fr>) -> Vec<(Vec<Fr>, &'static str, Option<Vec<Fr>>)> {
+        mle_points(z, true)
     }
 }
 impl Oversize for ULigero {
@@ -193,8 +202,8 @@ impl Oversize for Brakedown {
         let nv = info.num_vars + 1 + (mag as usize % 2);
         Some((mle_over(nv, seed), format!("{nv} variables with parameters for {}", info.num_vars)))
     }
-    fn bad_points(_info: &KeyInfo, z: &Vec<Fr>) -> Vec<(Vec<Fr>, &'static str)> {
-        mle_points(z)
+    fn bad_points(_info: &KeyInfo, z: &Vec<Fr>) -> Vec<(Vec<Fr>, &'static str, Option<Vec<Fr>>)> {
+        mle_points(z, true)
     }
 }
 
@@ -271,7 +280,9 @@ pub fn check_trait<S: Oversize>(c: &Case, ctx: &mut CaseCtx) -> Result<(), Failu
         // ---- points with the wrong number of coordinates ------------------------------------
         4 | 5 => {
             let z = sess.point_vals[0].clone();
-            for (bad, what) in S::bad_points(info, &z) {
+            for (bad, what, reading) in S::bad_points(info, &z) {
+                let at = reading.clone().unwrap_or_else(|| bad.clone());
+                ctx.label_if(reading.is_some(), "positional_reading_defined");
                 ctx.label(what);
                 let mut sp = sess.sponge();
                 let mut r = rng(sel);
@@ -283,7 +294,7 @@ pub fn check_trait<S: Oversize>(c: &Case, ctx: &mut CaseCtx) -> Result<(), Failu
                         let mut sp = sess.sponge();
                         let mut r = rng(sel);
                         let rc = guard(|| S::PC::check(&keys.vk, [&sess.comms[0]], &bad, [v], &pr, &mut sp, Some(&mut r)));
-                        let v2 = guard_plain(|| sess.polys[0].polynomial().evaluate(&bad));
+                        let v2 = guard_plain(|| sess.polys[0].polynomial().evaluate(&at));
                         let consistent = matches!(v2, Out::Ok(x) if x == v);
                         ctx.check(!accepted(&rc) || consistent, sig(P, S::NAME, "check", &format!("{what}_wrong_value_accepted")), || format!("{what}: a value the polynomial does not take was accepted"))?;
                         ctx.label("served_but_sound");
@@ -298,8 +309,9 @@ pub fn check_trait<S: Oversize>(c: &Case, ctx: &mut CaseCtx) -> Result<(), Failu
                     let mut sp = sess.sponge();
                     let mut r = rng(sel);
                     let rc = guard(|| S::PC::check(&keys.vk, [&sess.comms[0]], &bad, [v], &pr, &mut sp, Some(&mut r)));
-                    let v2 = guard_plain(|| sess.polys[0].polynomial().evaluate(&bad));
+                    let v2 = guard_plain(|| sess.polys[0].polynomial().evaluate(&at));
                     let consistent = matches!(v2, Out::Ok(x) if x == v);
+                    ctx.label_if(accepted(&rc) && consistent, "accepted_value_of_the_positional_reading");
                     ctx.check(!accepted(&rc) || consistent, sig(P, S::NAME, "check", &format!("{what}_accepted")), || format!("{what}: verifier accepted a point of the wrong length"))?;
                 }
             }
@@ -551,6 +563,7 @@ pub fn spec() -> PropertySpec {
         rule: "Request kinds x magnitudes around the boundary (supported+1, max+1, 2max+1, supported+2; key variables +1/+2/-2; hiding 0 and beyond the supported hiding bound) inside otherwise valid generated scenarios: a polynomial larger than the key (degree / total degree / number of variables) handed to commit and to open; hiding bound 0, hiding bound beyond the key, hiding without an RNG; points with too few / too many coordinates handed to open and to check; a query for a polynomial that was not supplied, a commitment or an evaluation missing on the verifier side; mismatched labels between polynomial and commitment; trim beyond the parameters; an unsupported or inconsistent degree bound handed to commit (beyond supported / beyond max / not enforced / below the polynomial's degree) and to trim (an enforced-bound list containing, at any position and possibly twice, a bound above the supported degree for SonicKZG10 / above the maximum degree for MarlinKZG10, which by design serves bounds up to max_degree - there the committer must still refuse degrees above the supported degree); setup with degree 0, zero / missing / odd variables; the same for KZG10 and multilinear PST through their inherent APIs. Oracle: the entry point returns Err or aborts - never a commitment, proof or Ok(true). Where a scheme defines the request instead of refusing it (a longer point whose extra coordinates are ignored, an open that does not look at labels) the check demands that whatever is served is sound: no value the polynomial does not take verifies. In-domain requests never aborting is C01's oracle. Non-trivial: magnitude exactly one past the boundary.",
         assumptions: vec![
             "IPA treats any hiding bound (including 0) as 'hiding' and Ligero parameters do not bound the polynomial size: not out of domain for those schemes",
+            "multilinear Ligero / Brakedown verifiers read a point positionally (tensor vectors, inner products that stop at the shorter operand) and the commitment does not record the number of variables: a point lacking its last coordinate is read as if that coordinate were 0; accepting the polynomial's value at the zero-padded point is treated as scheme-defined, any other accepted value is a violation",
             "PST13 / multilinear PST polynomials with fewer variables than the key are scheme-defined and not asserted",
             "schemes without degree-bound or hiding support (PST13: bounds; Hyrax: both fields; Ligero/Brakedown: both, documented as 'does not support hiding') ignore those LabeledPolynomial fields, and the repository's own test templates pass hiding bounds to them: treated as defined behaviour, not as an out-of-domain request",
         ],
